@@ -29,6 +29,9 @@ CHECKS = {
  "C07": dict(category="exploration", technique="twin differential over Hypothesis-generated (object, chunk window) pairs plus an exhaustive single-exon CDS x chunk product; the whole-chromosome twin and the Pos/Seq/Frame models restricted to the window are the oracle",
    text="Features, CDS, transcripts, genes, feature collections and annotation collections are built twice - on seq_to_parent(genome) and on seq_chunk_to_parent(genome[cs:ce]) - and compared: chromosome-level blocks, dictionary form, identifiers, codon triples must be identical; chunk-relative locations, sequences and codons must equal the chromosome answers restricted to the window; misses must be empty, never an error.",
    note="Known findings: F6b (single-exon CDS offset arithmetic, pinned by repository tests), F22 (collection-level GUIDs digest the chunk-relative location).", ref="DESIGN.md §5 C07"),
+ "C08": dict(category="exploration", technique="Hypothesis-generated collections and members: round trips (dict, schema through JSON text, pickle) + differential runs in persistent worker processes across a PYTHONHASHSEED sweep + metamorphic identifier sensitivity",
+   text="from_dict(to_dict) (also with export_parent), Model.from_* -> Schema.dump -> JSON -> Schema.load -> to_*, and pickling must return an equal object with the same identifier, dictionary, hash, qualifiers, chunk-relative blocks and sequences (incl. alternative haplotype sequence of variant collections) on no parent / whole chromosome / chunk; identifiers and dictionary digests must agree across hash seeds and qualifier insertion orders; one changed coordinate/strand/frame must change the identifiers of the interval and its ancestors only.",
+   note="Hash-seed sweep is finite (4 quick / 16 thorough). Variant collections are placed clear of genes so C13 behaviour is not mixed in. Uses the marshmallow 4 compat shim.", ref="DESIGN.md §5 C08"),
  "C15": dict(category="exploration", technique="exhaustive enumeration of the finite domains against typed-in IUPAC tables and Biopython's NCBI codon tables",
    text="Every element of every finite domain (4096 IUPAC triplets x case, all alphabet letters, frames x shifts in [-30,30], all strand pairs/triples, all biotype names) is enumerated and compared with an independent reference; within those domains this is complete.",
    note="Trusts Biopython CodonTable ids 1/11 and Bio.Seq.complement; IUPAC tables typed into checks/c15.py.", ref="DESIGN.md §5 C15"),
